@@ -20,6 +20,7 @@ CONSTANTS
   TTLMode = "stored"
   Admit = "rule"
   Dedup = TRUE
+  RefreshOwner = "asked"
   Alias = "store"
   DumpFields <- AllDump
   Insts = {1}
